@@ -837,8 +837,8 @@ def vget(view, key):
 
 def wildcard_match(name, pat):
     """What `--filter` promises (utils/io.rs: "simple wildcard pattern matching"): without regard to case; `*` stands for any run
-    of characters, every other character for itself, and the whole name must be covered; a pattern without `*` selects the
-    names that contain it."""
+    of characters, every other character for itself, and the whole name must be covered. (A pattern without `*` selects the
+    names that contain it - the tool's own choice, which the generated filters stay away from.)"""
     name, pat = name.lower(), pat.lower()
     if pat in ("", "*"):
         return True
@@ -855,7 +855,7 @@ def derived_filters(names, k):
     if plain:
         a = plain[k % len(plain)]
         b = plain[(k * 7 + 3) % len(plain)]
-        out += ["*" + a[-2:], a[:2] + "*", "*" + b[1:-1] + "*", a[:1] + "*" + a[-1:], b[:2] + "*" + b[-3:], "*" + a[len(a) // 2:], b[1:3]]
+        out += ["*" + a[-2:], a[:2] + "*", "*" + b[1:-1] + "*", a[:1] + "*" + a[-1:], b[:2] + "*" + b[-3:], "*" + a[len(a) // 2:]]
         rep = [n for n in plain if any(n.count(n[i:i + 2]) > 1 for i in range(len(n) - 1))]
         if rep:
             r = rep[k % len(rep)]
